@@ -4,6 +4,7 @@ package resmgr
 
 import (
 	"fmt"
+	polcfg "github.com/containers/nri-plugins/pkg/apis/config/v1alpha1/resmgr/policy"
 	"sort"
 	"testing"
 
@@ -164,8 +165,24 @@ func c04Observe(e *executor, r *stepResult, ri *runInfo) {
 var c04TA = &propTest{
 	prop: "C04", unit: "ta-memory",
 	gen: func(t *rapid.T) *hcCase {
-		return genTACase(t, genOpts{Policy: polTA, MinOps: 10, MaxOps: 40, Reconfig: true, MemPressure: true, ColdStart: true, OptOuts: true,
+		c := genTACase(t, genOpts{Policy: polTA, MinOps: 10, MaxOps: 40, Reconfig: true, MemPressure: true, ColdStart: true, OptOuts: true,
 			Topo: vfkit.TopoOpts{MaxCPUs: 32, SmallMem: true, MaxMemNodes: 8}})
+		if rapid.IntRange(0, 2).Draw(t, "lateRejection") == 0 && len(c.Ops) > 6 {
+			// in the middle of the history: an update that is valid in itself but too small for
+			// the containers running by then (rejected after allocations were touched), followed
+			// by the rest of the history on whatever the rejection left behind
+			on := c.Topo.OnlineCPUs().Minus(c.Topo.IsolatedCPUs()).Sorted()
+			if len(on) >= 2 {
+				small := c.Config.clone()
+				small.TA.AvailableResources = polcfg.Constraints{polcfg.CPU: polcfg.Amount(fmt.Sprintf("cpuset:%d,%d", on[0], on[1]))}
+				small.TA.ReservedResources = polcfg.Constraints{polcfg.CPU: polcfg.Amount(fmt.Sprintf("cpuset:%d", on[0]))}
+				pos := rapid.IntRange(len(c.Ops)/3, 2*len(c.Ops)/3).Draw(t, "rejectAt")
+				ops := append([]hcOp{}, c.Ops[:pos]...)
+				ops = append(ops, hcOp{Kind: "reconfig", Cfg: small})
+				c.Ops = append(ops, c.Ops[pos:]...)
+			}
+		}
+		return c
 	},
 	invs:    []invFn{checkTAMemory},
 	observe: c04Observe,
